@@ -37,7 +37,7 @@ func init() {
 			kgc := r.P.Field("partitioning", "KeySpace", "keyGroupCount")
 			r.Site(f.Decl.Pos(), "KeySpace.KeyGroup expression")
 			var ret *ast.ReturnStmt
-			ast.Inspect(f.Decl.Body, func(nd ast.Node) bool {
+			inspect(f.Decl.Body, func(nd ast.Node) bool {
 				if rs, ok := nd.(*ast.ReturnStmt); ok {
 					ret = rs
 				}
@@ -60,7 +60,7 @@ func init() {
 			}
 			// purity of murmur.Hash
 			hi := hash.Pkg.TypesInfo
-			ast.Inspect(hash.Decl.Body, func(nd ast.Node) bool {
+			inspect(hash.Decl.Body, func(nd ast.Node) bool {
 				switch x := nd.(type) {
 				case *ast.Ident:
 					if v, isVar := hi.Uses[x].(*types.Var); isVar && v.Parent() == hash.Pkg.Types.Scope() {
@@ -113,7 +113,7 @@ func init() {
 				return "", false
 			}
 			var sig []string
-			ast.Inspect(f.Decl.Body, func(nd ast.Node) bool {
+			inspect(f.Decl.Body, func(nd ast.Node) bool {
 				switch x := nd.(type) {
 				case *ast.AssignStmt:
 					if len(x.Lhs) == 1 && len(x.Rhs) == 1 {
@@ -162,7 +162,7 @@ func init() {
 			}
 			// seed: h1 := uint32(seed)
 			okSeed := false
-			ast.Inspect(f.Decl.Body, func(nd ast.Node) bool {
+			inspect(f.Decl.Body, func(nd ast.Node) bool {
 				if as, ok := nd.(*ast.AssignStmt); ok && as.Tok == token.DEFINE && len(as.Lhs) == 1 && types.ExprString(as.Lhs[0]) == "h1" {
 					if r.isParam(f, stripConv(info, as.Rhs[0]), 1) {
 						okSeed = true
@@ -175,7 +175,7 @@ func init() {
 			}
 			// block load: little-endian composition with shifts 8,16,24 of data[1..3]
 			var shifts []string
-			ast.Inspect(f.Decl.Body, func(nd ast.Node) bool {
+			inspect(f.Decl.Body, func(nd ast.Node) bool {
 				if b, ok := nd.(*ast.BinaryExpr); ok && b.Op == token.SHL {
 					if c, ok := constOf(b.Y); ok {
 						shifts = append(shifts, types.ExprString(stripConv(info, b.X))+"<<"+c)
@@ -288,7 +288,7 @@ func init() {
 			}
 			// ranges slice has rangeCount elements
 			okLen := false
-			ast.Inspect(f.Decl.Body, func(nd ast.Node) bool {
+			inspect(f.Decl.Body, func(nd ast.Node) bool {
 				if call, ok := nd.(*ast.CallExpr); ok {
 					if id, ok := call.Fun.(*ast.Ident); ok && id.Name == "make" && len(call.Args) == 2 && prog.IdentObj(info, call.Args[1]) == types.Object(p1) {
 						okLen = true
@@ -304,7 +304,7 @@ func init() {
 			ni := nk.Pkg.TypesInfo
 			r.Site(nk.Decl.Pos(), "NewKeySpace lookup table")
 			var ranges types.Object
-			ast.Inspect(nk.Decl.Body, func(nd ast.Node) bool {
+			inspect(nk.Decl.Body, func(nd ast.Node) bool {
 				if as, ok := nd.(*ast.AssignStmt); ok && len(as.Rhs) == 1 {
 					if call, ok := ast.Unparen(as.Rhs[0]).(*ast.CallExpr); ok && r.P.CalleeFunc(ni, call) == f.Obj {
 						ranges = prog.IdentObj(ni, as.Lhs[0])
@@ -316,7 +316,7 @@ func init() {
 				return true
 			})
 			okTable := false
-			ast.Inspect(nk.Decl.Body, func(nd ast.Node) bool {
+			inspect(nk.Decl.Body, func(nd ast.Node) bool {
 				outer, ok := nd.(*ast.RangeStmt)
 				if !ok || ranges == nil || prog.IdentObj(ni, outer.X) != ranges {
 					return true
@@ -357,7 +357,7 @@ func init() {
 			}
 			// stored fields
 			want := map[string]bool{"keyGroupCount": false, "rangeLookup": false, "keyGroupRanges": false}
-			ast.Inspect(nk.Decl.Body, func(nd ast.Node) bool {
+			inspect(nk.Decl.Body, func(nd ast.Node) bool {
 				if kv, ok := nd.(*ast.KeyValueExpr); ok {
 					if id, ok := kv.Key.(*ast.Ident); ok {
 						switch id.Name {
@@ -382,7 +382,7 @@ func init() {
 			rl := r.P.Field("partitioning", "KeySpace", "rangeLookup")
 			kgFn := r.P.FuncObj("partitioning", "(*KeySpace).KeyGroup")
 			okRI := false
-			ast.Inspect(ri.Decl.Body, func(nd ast.Node) bool {
+			inspect(ri.Decl.Body, func(nd ast.Node) bool {
 				if ix, ok := nd.(*ast.IndexExpr); ok && prog.SelField(ri.Pkg.TypesInfo, ix.X) == rl {
 					def := resolveLocal(ri.Pkg.TypesInfo, ri.Decl.Body, ix.Index)
 					if call, ok := ast.Unparen(def).(*ast.CallExpr); ok && r.P.CalleeFunc(ri.Pkg.TypesInfo, call) == kgFn && len(call.Args) == 1 && r.isParam(ri, call.Args[0], 0) {
@@ -418,7 +418,7 @@ func init() {
 			ranges := r.P.FuncObj("partitioning", "(*KeySpace).KeyGroupRanges")
 			// ownIndex := slices.IndexFunc(req.Operators, func(op) bool { return op.Id == o.id })
 			var own types.Object
-			ast.Inspect(hd.Decl.Body, func(nd ast.Node) bool {
+			inspect(hd.Decl.Body, func(nd ast.Node) bool {
 				if as, ok := nd.(*ast.AssignStmt); ok && len(as.Rhs) == 1 && len(as.Lhs) == 1 {
 					if call, ok := isCallToNamed(info, as.Rhs[0], "slices", "IndexFunc"); ok && len(call.Args) == 2 {
 						if lit, ok := ast.Unparen(call.Args[1]).(*ast.FuncLit); ok && exprUsesField(info, lit.Body, idF) {
@@ -429,7 +429,7 @@ func init() {
 				return true
 			})
 			okOwn := false
-			ast.Inspect(hd.Decl.Body, func(nd ast.Node) bool {
+			inspect(hd.Decl.Body, func(nd ast.Node) bool {
 				as, ok := nd.(*ast.AssignStmt)
 				if !ok || len(as.Lhs) != 1 || prog.SelField(info, as.Lhs[0]) != kgr {
 					return true
@@ -448,7 +448,7 @@ func init() {
 			}
 			// data ownership for the DB is built from the same range; neighbours from the other indices
 			nop := r.P.FuncObj("workers/operator", "newOperatorPartition")
-			ast.Inspect(hd.Decl.Body, func(nd ast.Node) bool {
+			inspect(hd.Decl.Body, func(nd ast.Node) bool {
 				if call, ok := nd.(*ast.CallExpr); ok && r.P.CalleeFunc(info, call) == nop {
 					r.Site(call.Pos(), "newOperatorPartition(own range, neighbours)")
 					if len(call.Args) != 2 || prog.SelField(info, call.Args[0]) != kgr {
@@ -463,7 +463,7 @@ func init() {
 			cfgKGC := r.P.Field("config", "Config", "KeyGroupCount")
 			n := 0
 			var opLists []types.Object
-			ast.Inspect(dp.Decl.Body, func(nd ast.Node) bool {
+			inspect(dp.Decl.Body, func(nd ast.Node) bool {
 				kv, ok := nd.(*ast.KeyValueExpr)
 				if !ok {
 					return true
@@ -496,7 +496,7 @@ func init() {
 			wc := r.P.Field("config", "Config", "WorkerCount")
 			nr := r.P.FuncObj("jobs", "NewRegistry")
 			okWC := false
-			ast.Inspect(jn.Decl.Body, func(nd ast.Node) bool {
+			inspect(jn.Decl.Body, func(nd ast.Node) bool {
 				if call, ok := nd.(*ast.CallExpr); ok && r.P.CalleeFunc(jn.Pkg.TypesInfo, call) == nr && len(call.Args) >= 1 && prog.SelField(jn.Pkg.TypesInfo, call.Args[0]) == wc {
 					okWC = true
 				}
@@ -520,7 +520,7 @@ func init() {
 			pb := r.P.Func("partitioning", "KeyGroup.PutBytes")
 			fb := r.P.Func("partitioning", "KeyGroupFromBytes")
 			okP, okF := false, false
-			ast.Inspect(pb.Decl.Body, func(nd ast.Node) bool {
+			inspect(pb.Decl.Body, func(nd ast.Node) bool {
 				if call, ok := nd.(*ast.CallExpr); ok {
 					if sel, ok := ast.Unparen(call.Fun).(*ast.SelectorExpr); ok && sel.Sel.Name == "PutUint16" && isSelectorOf(pb.Pkg.TypesInfo, sel.X, "encoding/binary", "BigEndian") {
 						okP = true
@@ -528,7 +528,7 @@ func init() {
 				}
 				return true
 			})
-			ast.Inspect(fb.Decl.Body, func(nd ast.Node) bool {
+			inspect(fb.Decl.Body, func(nd ast.Node) bool {
 				if call, ok := nd.(*ast.CallExpr); ok {
 					if sel, ok := ast.Unparen(call.Fun).(*ast.SelectorExpr); ok && sel.Sel.Name == "Uint16" && isSelectorOf(fb.Pkg.TypesInfo, sel.X, "encoding/binary", "BigEndian") {
 						okF = true
@@ -563,7 +563,7 @@ func init() {
 			want := map[string]string{"KeyGroupFromBytes": "0:2", "TimeFromBytes": "3:11"}
 			got := map[string]string{}
 			subj := ""
-			ast.Inspect(tf.Decl.Body, func(nd ast.Node) bool {
+			inspect(tf.Decl.Body, func(nd ast.Node) bool {
 				switch x := nd.(type) {
 				case *ast.CallExpr:
 					if fn := r.P.CalleeFunc(ti, x); fn != nil && len(x.Args) == 1 {
@@ -590,7 +590,7 @@ func init() {
 			nts := r.P.Func("workers/operator", "NewTimerStore")
 			ni := nts.Pkg.TypesInfo
 			cmpOK := 0
-			ast.Inspect(nts.Decl.Body, func(nd ast.Node) bool {
+			inspect(nts.Decl.Body, func(nd ast.Node) bool {
 				if call, ok := isCallToNamed(ni, nodeExpr(nd), "bytes", "Compare"); ok && len(call.Args) == 2 {
 					r.Site(call.Pos(), "timer comparator windows")
 					for _, a := range call.Args {
@@ -624,7 +624,7 @@ func init() {
 			pt := r.P.Func("util/binu", "PutTimeBytes")
 			tfb := r.P.Func("util/binu", "TimeFromBytes")
 			okPT, okTF := false, false
-			ast.Inspect(pt.Decl.Body, func(nd ast.Node) bool {
+			inspect(pt.Decl.Body, func(nd ast.Node) bool {
 				if call, ok := nd.(*ast.CallExpr); ok {
 					if sel, ok := ast.Unparen(call.Fun).(*ast.SelectorExpr); ok && sel.Sel.Name == "PutUint64" && isSelectorOf(pt.Pkg.TypesInfo, sel.X, "encoding/binary", "BigEndian") && len(call.Args) == 2 {
 						if strings.Contains(types.ExprString(call.Args[1]), "UnixNano()") {
@@ -634,7 +634,7 @@ func init() {
 				}
 				return true
 			})
-			ast.Inspect(tfb.Decl.Body, func(nd ast.Node) bool {
+			inspect(tfb.Decl.Body, func(nd ast.Node) bool {
 				if call, ok := nd.(*ast.CallExpr); ok {
 					if sel, ok := ast.Unparen(call.Fun).(*ast.SelectorExpr); ok && sel.Sel.Name == "Uint64" && isSelectorOf(tfb.Pkg.TypesInfo, sel.X, "encoding/binary", "BigEndian") {
 						okTF = true
@@ -676,7 +676,7 @@ func init() {
 			oi := ok.Pkg.TypesInfo
 			kgr := r.P.Field("workers/operator", "OperatorPartition", "keyGroupRange")
 			good := false
-			ast.Inspect(ok.Decl.Body, func(nd ast.Node) bool {
+			inspect(ok.Decl.Body, func(nd ast.Node) bool {
 				if call, isC := nd.(*ast.CallExpr); isC && r.P.CalleeFunc(oi, call) == inc.Obj {
 					if sel, isS := ast.Unparen(call.Fun).(*ast.SelectorExpr); isS && prog.SelField(oi, sel.X) == kgr && len(call.Args) == 1 {
 						def := resolveLocal(oi, ok.Decl.Body, call.Args[0])
@@ -697,7 +697,7 @@ func init() {
 			for _, fn := range []*prog.FuncInfo{r.P.Func("partitioning", "KeyGroupRangeFromBytes"), r.P.Func("workers/operator", "(*neighborPartition).NeedsTable")} {
 				fi := fn.Pkg.TypesInfo
 				okEnd := false
-				ast.Inspect(fn.Decl.Body, func(nd ast.Node) bool {
+				inspect(fn.Decl.Body, func(nd ast.Node) bool {
 					if kv, isKV := nd.(*ast.KeyValueExpr); isKV {
 						if id, isID := kv.Key.(*ast.Ident); isID && id.Name == "End" {
 							if l, okL := linearOf(fi, nil, kv.Value); okL && l[""] == 1 {
@@ -734,7 +734,7 @@ func init() {
 			}
 			n := 0
 			for _, file := range pkg.Syntax {
-				ast.Inspect(file, func(nd ast.Node) bool {
+				inspect(file, func(nd ast.Node) bool {
 					call, ok := nd.(*ast.CallExpr)
 					if !ok || len(call.Args) != 1 {
 						return true
@@ -769,7 +769,7 @@ func init() {
 			nk := r.P.Func("partitioning", "NewKeySpace")
 			ni := nk.Pkg.TypesInfo
 			guard := false
-			ast.Inspect(nk.Decl.Body, func(nd ast.Node) bool {
+			inspect(nk.Decl.Body, func(nd ast.Node) bool {
 				is, ok := nd.(*ast.IfStmt)
 				if !ok {
 					return true
@@ -787,7 +787,7 @@ func init() {
 				if !panics {
 					return true
 				}
-				ast.Inspect(is.Cond, func(m ast.Node) bool {
+				inspect(is.Cond, func(m ast.Node) bool {
 					be, ok := m.(*ast.BinaryExpr)
 					if !ok || !r.isParam(nk, be.X, 0) {
 						return true
@@ -820,7 +820,7 @@ func nodeExpr(n ast.Node) ast.Expr {
 // enclosingLit finds the innermost function literal in root containing n.
 func enclosingLit(root ast.Node, n ast.Node) *ast.FuncLit {
 	var best *ast.FuncLit
-	ast.Inspect(root, func(nd ast.Node) bool {
+	inspect(root, func(nd ast.Node) bool {
 		if lit, ok := nd.(*ast.FuncLit); ok && lit.Pos() <= n.Pos() && n.End() <= lit.End() {
 			best = lit
 		}
@@ -835,7 +835,7 @@ func (r *Run) checkDecodeKey() {
 	info := f.Pkg.TypesInfo
 	r.Site(f.Decl.Pos(), "decodeKey consumption sequence")
 	var seq []string
-	ast.Inspect(f.Decl.Body, func(nd ast.Node) bool {
+	inspect(f.Decl.Body, func(nd ast.Node) bool {
 		call, ok := nd.(*ast.CallExpr)
 		if !ok {
 			return true
